@@ -4,39 +4,23 @@
 From ZC Require Import Model.StakePool Model.Provider Proof.StakePool Proof.Provider.
 Open Scope Z_scope.
 
-(* ---- the statement for shutdown, and why it is false of the code as it is (F-23) ---- *)
+(* ---- shutdown ---- *)
 
-(* after a successful shutdown of a live provider its own stake pool is dead (or deleted with
-   the empty provider) and no other stake pool key is created or altered *)
-Definition C23_shutdown_full_statement : Prop :=
+(* after a successful shutdown of a live provider (by the owner or its delegate wallet) its own
+   stake pool is dead and slashed once by kill_slash/2 (or deleted with the empty provider), and
+   no other stake pool key or provider record is created or altered *)
+Theorem C23_shutdown_touches_only_that_provider :
   forall owner slash t id caller st st' p sp,
     pv_provs st id = Some p -> pv_pools st t id = Some sp -> pv_killed p || pv_shut p = false ->
     pv_shutdown owner slash t id caller st = Some st' ->
-    (match pv_pools st' t id with Some sp1 => sp_killed sp1 = true | None => True end) /\
-    (forall t' id', (t', id') <> (t, id) -> pv_pools st' t' id' = pv_pools st t' id').
-
-(* provider.ShutDown saves the killed pool under the CALLER's id: shutdown of blobber 10 by its
-   delegate wallet 11 leaves "blobber:stakepool:10" alive and unslashed and creates a dead copy
-   at "blobber:stakepool:11" *)
-Theorem C23_shutdown_wrong_key_refuted : ~ C23_shutdown_full_statement.
-Proof. exact pv_shutdown_statement_refuted. Qed.
-Print Assumptions C23_shutdown_wrong_key_refuted.
-
-(* outside exactly that trigger (caller id = provider id) the statement holds, and the pool is
-   slashed once by KillSlash/2 *)
-Theorem C23_shutdown_partial :
-  forall owner slash t id st st' p sp,
-    pv_provs st id = Some p -> pv_pools st t id = Some sp -> pv_killed p || pv_shut p = false ->
-    pv_shutdown owner slash t id id st = Some st' ->
     (match pv_pools st' t id with Some sp1 => sp_killed sp1 = true | None => True end) /\
     (forall t' id', (t', id') <> (t, id) -> pv_pools st' t' id' = pv_pools st t' id') /\
     (forall id', id' <> id -> pv_provs st' id' = pv_provs st id') /\
     (exists sp', sp_kill sp (f64_div slash (f64_of_Z 2)) = Some sp' /\
        (pv_pools st' t id = Some sp' \/ (pv_deletable t p sp' = true /\ pv_pools st' t id = None /\ pv_provs st' id = None))).
-Proof. exact pv_shutdown_statement_partial. Qed.
-Print Assumptions C23_shutdown_partial.
+Proof. exact pv_shutdown_statement. Qed.
+Print Assumptions C23_shutdown_touches_only_that_provider.
 
-(* what shutdown does for any caller (the faithful description, defect included) *)
 Theorem C23_shutdown_exact :
   forall owner slash t id caller st st',
   pv_shutdown owner slash t id caller st = Some st' ->
@@ -44,12 +28,10 @@ Theorem C23_shutdown_exact :
     ((pv_killed p || pv_shut p = true /\ st' = st) \/
      (pv_killed p || pv_shut p = false /\ (caller = owner \/ caller = ss_wallet (sp_set sp)) /\
       exists sp', sp_kill sp (f64_div slash (f64_of_Z 2)) = Some sp' /\
+        (forall t' id', (t', id') <> (t, id) -> pv_pools st' t' id' = pv_pools st t' id') /\
         (forall id', id' <> id -> pv_provs st' id' = pv_provs st id') /\
-        (forall t' id', (t', id') <> (t, id) -> (t', id') <> (t, caller) -> pv_pools st' t' id' = pv_pools st t' id') /\
-        ((pv_deletable t p sp' = false /\ pv_pools st' t caller = Some sp' /\ pv_provs st' id = Some (pv_mark_shut p) /\
-          (caller <> id -> pv_pools st' t id = Some sp)) \/
-         (pv_deletable t p sp' = true /\ pv_pools st' t id = None /\ pv_provs st' id = None /\
-          (caller <> id -> pv_pools st' t caller = Some sp'))))).
+        ((pv_deletable t p sp' = false /\ pv_pools st' t id = Some sp' /\ pv_provs st' id = Some (pv_mark_shut p)) \/
+         (pv_deletable t p sp' = true /\ pv_pools st' t id = None /\ pv_provs st' id = None)))).
 Proof. exact pv_shutdown_exact. Qed.
 Print Assumptions C23_shutdown_exact.
 
@@ -130,13 +112,25 @@ Theorem C23_dead_gets_no_reward :
 Proof. exact sp_dead_gets_no_reward. Qed.
 Print Assumptions C23_dead_gets_no_reward.
 
-(* Non-vacuity: kill of blobber 10 by the owner with kill_slash 0.5, then a reward, then a second kill *)
+(* Non-vacuity: kill of blobber 10 by the owner with kill_slash 0.5, then a reward, then a second
+   kill; and the former F-23 trigger: shutdown by the delegate wallet 11 slashes the blobber's own
+   pool by 0.25 and creates nothing under "blobber:stakepool:11" *)
 Example C23_example :
   let '(st, outs) := pv_run 9000 (f64_of_bits 4602678819172646912) pv_witness_state
                        [PKill pv_blobber 10 11; PKill pv_blobber 10 9000; PReward pv_blobber 10 1000; PKill pv_blobber 10 9000] in
   outs = [false; true; true; true] /\
   match pv_pools st pv_blobber 10, pv_provs st 10 with
   | Some sp, Some p => sp_killed sp = true /\ map dp_bal (sp_pools sp) = [500] /\ sp_total_rewards sp = 0 /\ pv_killed p = true
+  | _, _ => False
+  end /\ pv_pools st pv_blobber 11 = None.
+Proof. vm_compute. repeat split; reflexivity. Qed.
+
+Example C23_example_shutdown :
+  let '(st, outs) := pv_run 9000 (f64_of_bits 4602678819172646912) pv_witness_state
+                       [PShutdown pv_blobber 10 77; PShutdown pv_blobber 10 11; PReward pv_blobber 10 1000] in
+  outs = [false; true; true] /\
+  match pv_pools st pv_blobber 10, pv_provs st 10 with
+  | Some sp, Some p => sp_killed sp = true /\ map dp_bal (sp_pools sp) = [750] /\ sp_total_rewards sp = 0 /\ pv_shut p = true
   | _, _ => False
   end /\ pv_pools st pv_blobber 11 = None.
 Proof. vm_compute. repeat split; reflexivity. Qed.
